@@ -311,3 +311,44 @@ impl Drop for Socket {
         let _ = self.recv_exit.take().expect("Exit always exists").send(());
     }
 }
+
+#[cfg(feature = "verif-hooks")]
+impl Socket {
+    /// Verification hook: a socket whose datagrams travel over channels owned by the harness.
+    /// The real receive path (`RecvHandler::handle_inbound`) and the real encoder are used; a dummy
+    /// loopback UDP socket only satisfies the `recv` field and is never read.
+    pub(crate) async fn new_virtual(
+        config: SocketConfig,
+        inbound: mpsc::UnboundedReceiver<(SocketAddr, Vec<u8>)>,
+        outbound: mpsc::UnboundedSender<(crate::node_info::NodeAddress, Vec<u8>)>,
+    ) -> Result<Self, Error> {
+        let SocketConfig {
+            executor,
+            filter_config,
+            listen_config: _,
+            ban_duration,
+            expected_responses,
+            local_node_id,
+            protocol_identity,
+        } = config;
+        let dummy = Arc::new(UdpSocket::bind((Ipv4Addr::LOCALHOST, 0)).await?);
+        let recv_config = RecvHandlerConfig {
+            filter_config,
+            executor: executor.clone(),
+            recv: dummy,
+            second_recv: None,
+            local_node_id,
+            protocol_identity,
+            expected_responses,
+            ban_duration,
+        };
+        let (recv, recv_exit) = RecvHandler::spawn_virtual(recv_config, inbound);
+        let (send, sender_exit) = SendHandler::spawn_virtual(executor, outbound);
+        Ok(Socket {
+            send,
+            recv,
+            sender_exit: Some(sender_exit),
+            recv_exit: Some(recv_exit),
+        })
+    }
+}
